@@ -215,16 +215,16 @@ def poly_case(grid, salt, embs=ALL, origin="tlc", both=True):
 def comb_case(grid, salt, origin="tlc"):
     """The same drawing as a comb / bar under the decimal embedding (step 0.1).  One axis has its lines at 16.0 plus
     0.1 / 0.2 / 0.8 steps (inexact: neighbouring rectangles may overlap by one unit in the last place, 3.6e-15 there);
-    the other axis has exactly representable lines 1.0 / 2.0 / 8.0 apart with ONE step of 128.0 or 256.0.  The
+    the other axis has exactly representable lines 1.0 / 2.0 / 8.0 apart with ONE step of 128.0, 256.0, 16384.0 or 131072.0.  The
     rectangles then share sides thousands of times longer than the smallest side (0.1), so that a one-ulp overlap has
-    an area above the DISTANCE tolerance (1e-13) and far below the area tolerance -- while every coordinate stays
-    small enough for the distance tolerance not to be absorbed by rounding (it is at coordinates above ~1e3, see the
-    report: find_location's strict extent test then rejects flush corners)."""
+    an area above the DISTANCE tolerance (1e-13) and far below the area tolerance.  With the two longest steps the
+    distance tolerance is absorbed by rounding at the far coordinates (X + 1e-13 == X): flush corners must still be
+    accepted (fixed in /repo by f5ae586)."""
     pc = poly_case(grid, salt, embs=["dec"], origin=origin + "-comb", both=False)
     if pc is None:
         return None
     nr, nc = len(grid), len(grid[0])
-    long_step = 1280 if salt % 4 < 2 else 2560
+    long_step = (1280, 2560, 163840, 1310720)[(salt // 2) % 4]      # 128.0, 256.0, 16384.0, 131072.0
     if salt % 2 == 0:
         pc["xs"], pc["yl"] = comb_spacing(nc, salt // 2, long_step, 10), comb_spacing(nr, salt // 2 + 1, 0, 1, 160)
     else:
@@ -409,7 +409,7 @@ def run(ctx: Ctx) -> int:
         "vertex lists: the outline of every enumerated grid of at most 12 cells that is one simple polygon and fills its bounding box, "
         "both orientations, two start vertices, Point list and numpy rows (quick: alternating, thorough: both for every outline), "
         "uniform or 1..3-step line spacing, 8 float embeddings; every second drawing also as a comb under the decimal embedding (one axis in 0.1 / 0.2 / "
-        "0.8 steps from 16.0, the other in exactly representable 1 / 2 / 8 steps with one step of 128 or 256)",
+        "0.8 steps from 16.0, the other in exactly representable 1 / 2 / 8 steps with one step of 128, 256, 16384 or 131072)",
         "for grids of more than 12 cells the oracle of 'a decomposition exists' is the shadow characterisation, proved equal to the declarative definition by TLC on all grids of at most 12 cells",
         "a refusal of strop_decomposition (its assertion 'Polygon is not a STROP') is read as 'no decomposition reported'",
         "'recognised with the trunk first' is read as: Module.has_stog, the first rectangle carries TRUNK and every other rectangle abuts it (any valid trunk)",
